@@ -578,7 +578,12 @@ class Session:
             res["result"] = "raised"
             res["fails"] = [{"group": "run", "sub": "run", "callee": callee, "kind": exc_kind(o), "extra": {"msg": o.msg}}]
             return res
-        o = call(lambda: M.processing.SingularityCutter(m, list(S), features=fd, verbose=False))
+        # the container handed to the cutter: list / tuple / set / one-shot generator, assigned to each singularity set
+        # by a fixed rule (so that every form meets every input class); the answer must not depend on it
+        form = (sum(S) + len(S)) % 4
+        Sarg = [list(S), tuple(S), set(S), (v for v in list(S))][form]
+        res["container_form"] = ("list", "tuple", "set", "generator")[form]
+        o = call(lambda: M.processing.SingularityCutter(m, Sarg, features=fd, verbose=False))
         if not o.ok:
             return raised("__init__", o)
         cutter = o.value
@@ -727,4 +732,3 @@ def finish(tier, rep: Report):
     if rep.counters.get("filtered_not_connected_manifold"):
         fails.append("a task contained a mesh that is not a connected manifold (tasks() filters them)")
     return fails
-
